@@ -490,7 +490,11 @@ func vRunHistory(t *testing.T, h int, next func(step int, st map[string]interfac
 		// C03: D0 and every restored copy see the same entry
 		preSess := map[uint64]bool{}
 		for _, x := range d0.srv.VerifProject()["ss"].([]interface{}) {
-			preSess[uint64(x.(map[string]interface{})["id"].(int64))] = true
+			// a recipient id is a session that has a stream: Reply = 0 (the pseudo-clients of a link that was
+			// closed - e.g. for coming from a banned address - linger, but nobody reads "their" stream)
+			if m := x.(map[string]interface{}); m["rid"].(int) == 0 {
+				preSess[uint64(m["id"].(int64))] = true
+			}
 		}
 		dm, dp := d0.apply(e)
 		if dp != "" {
@@ -685,7 +689,8 @@ func vProbeView(srv *ircserver.IRCServer, proj map[string]interface{}) string {
 		var asker map[string]interface{}
 		for n := range mem {
 			if sid, ok := nk[n]; ok {
-				if s := sessBySid[sid.(int64)]; s != nil && s["rid"].(int) == 0 && s["li"].(bool) {
+				// (a logged-in member that turned itself into a services link no longer speaks the client commands)
+				if s := sessBySid[sid.(int64)]; s != nil && s["rid"].(int) == 0 && s["li"].(bool) && !s["sv"].(bool) {
 					asker = s
 					break
 				}
